@@ -1,5 +1,7 @@
 import TpmProofs.DecodeOk
 import TpmProofs.Props.C16
+import TpmProofs.Valid
+import TpmProofs.Props.C07
 /-!
 # C04 — strict mode rejects exactly the inputs containing an out-of-range value
 -/
@@ -30,5 +32,58 @@ theorem c04_prim_accept (p : Prim) (path : Path) (bs rest : List Byte) (pos : Na
   have := take_ok bs rest pos out (bump scs p.size)
   rw [hlen] at this
   simp [this, hok, emitM, emit]
+
+/-- **first offender** (every layout, every top, EVERY input): every field a strict decode shows carries a value valid for its
+declared type — the walker validates before it emits and stops at the first failure.  So when strict decoding raises
+`ValueConstraintViolatedError`, no field shown before it is an offender (and by C02 the fields shown tile the input up to
+the offending one): the error is about the first out-of-range field in wire order, and no event is emitted for it
+(`c04_prim_reject`). -/
+theorem c04_shown_fields_valid (tb : MsgTables) (top : Top) (x : List Byte) :
+    ∀ ke ∈ (stOf (runWalker true tb top x)).out, ValidEv ke.2 := runWalker_ve tb top x
+
+/-- the value error raised for a primitive field names that field's path, its declared type and the decoded integer,
+and that integer is outside the declared set -/
+theorem c04_prim_error_is_invalid (p : Prim) (path : Path) (s t : St) (pa : Path) (c : String) (x : Int)
+    (h : readPrim true p path s = .error (.value pa c x, t)) : pa = path ∧ c = p.name ∧ p.isValid x = false := by
+  unfold readPrim at h
+  cases hb : bytesParsed path p.size s with
+  | error et =>
+    obtain ⟨e, t'⟩ := et
+    rw [hb] at h
+    simp only [R.bind_error, Except.error.injEq, Prod.mk.injEq] at h
+    exfalso
+    have := bytesParsed_wi_val path p.size s e t' hb
+    exact this pa c x h.1
+  | ok ut =>
+    obtain ⟨_, s1⟩ := ut
+    rw [hb] at h
+    simp only [R.bind_ok] at h
+    cases ht : take p.size s1 with
+    | error et =>
+      obtain ⟨e, t'⟩ := et
+      rw [ht] at h
+      unfold take at ht
+      split at ht
+      · simp only [Except.error.injEq, Prod.mk.injEq] at ht
+        simp only [R.bind_error, Except.error.injEq, Prod.mk.injEq] at h
+        rw [← ht.1] at h; simp at h
+      · simp at ht
+    | ok bt =>
+      obtain ⟨bs, s2⟩ := bt
+      rw [ht] at h
+      simp only [R.bind_ok, if_true] at h
+      split at h
+      · simp at h
+      · rename_i hv
+        simp only [Except.error.injEq, Prod.mk.injEq, Err.value.injEq] at h
+        obtain ⟨⟨rfl, rfl, rfl⟩, _⟩ := h
+        exact ⟨rfl, rfl, by simpa using hv⟩
+where
+  bytesParsed_wi_val (path : Path) (size : Nat) (s : St) (e : Err) (t : St) (h : bytesParsed path size s = .error (e, t)) :
+      ∀ pa c x, e ≠ .value pa c x := by
+    intro pa c x he
+    subst he
+    have := C07.c07_prim.bpGo_no_value path size s.scs [] s _ t h
+    exact this pa c x rfl
 
 end C04
